@@ -1,4 +1,4 @@
-package main
+package c09
 
 // C09 — direct oracle on the real code: load → MarshalYAML / MarshalJSON → reload → compare → render again.
 //
